@@ -2,6 +2,7 @@
 // field `Fp`, of subtle::{CtOption, Choice}, and of rand's RNG traits, as seen by the glue code.
 pub mod th_field {
 use super::*;
+use super::verif_std::*;
 use real_sharks::{Fp, FpRepr};
 use subtle::{CtOption, Choice};
 use ff::{Field, PrimeField};
@@ -25,13 +26,6 @@ pub struct ExChoice(Choice);
 
 /// the modulus 2^128 + 12451
 pub open spec fn P() -> int { 340282366920938463463374607431768223907int }
-
-/// little-endian integer value of a byte string
-pub open spec fn le_int(b: Seq<u8>) -> int
-    decreases b.len()
-{
-    if b.len() == 0 { 0 } else { b[0] as int + 256 * le_int(b.subrange(1, b.len() as int)) }
-}
 
 /// value of a field element as an integer in [0, P)
 pub uninterp spec fn fv(f: Fp) -> int;
@@ -60,12 +54,6 @@ pub assume_specification[<Fp as PrimeField>::from_repr](r: FpRepr) -> (o: CtOpti
         ct_opt(o).is_some() <==> le_int(r.0@) < P(),
         ct_opt(o).is_some() ==> fv(ct_opt(o).unwrap()) == le_int(r.0@);
 
-/// n-byte little-endian encoding of an integer
-pub open spec fn le_bytes(v: int, n: nat) -> Seq<u8>
-    decreases n
-{
-    if n == 0 { Seq::<u8>::empty() } else { seq![(v % 256) as u8] + le_bytes(v / 256, (n - 1) as nat) }
-}
 /// 24-byte little-endian encoding of the value
 pub open spec fn repr(f: Fp) -> Seq<u8> { le_bytes(fv(f), 24) }
 pub assume_specification[<Fp as PrimeField>::to_repr](f: &Fp) -> (r: FpRepr)
